@@ -54,7 +54,6 @@ func (x *Exec) fnEffects(fn *ssa.Function, e *Effects, visited map[*ssa.Function
 		}
 		return
 	}
-	x.curEffFn = fn
 	if fn.Blocks == nil {
 		if !inModule(fn) {
 			return // foreign code: handled per call site from its arguments
@@ -62,6 +61,9 @@ func (x *Exec) fnEffects(fn *ssa.Function, e *Effects, visited map[*ssa.Function
 		e.Top = true
 		return
 	}
+	saved := x.curEffFn
+	x.curEffFn = fn
+	defer func() { x.curEffFn = saved }()
 	for _, b := range fn.Blocks {
 		for _, ins := range b.Instrs {
 			x.instrEffects(ins, e, visited)
@@ -266,6 +268,27 @@ func (x *Exec) staticCallEffects(f *ssa.Function, cc *ssa.CallCommon, e *Effects
 	if inModule(f) {
 		e.Top = true
 		return
+	}
+	// assumed contract (with a frame) for calls from the package being analysed
+	if x.curEffFn != nil {
+		root := x.curEffFn
+		for root.Parent() != nil {
+			root = root.Parent()
+		}
+		if root.Pkg != nil {
+			if lp := x.ld.Pkgs[root.Pkg.Pkg.Path()]; lp != nil && lp.Extern != nil {
+				if u, ok := lp.Extern[f]; ok && u.C.HasMod {
+					for _, m := range u.C.Modifies {
+						if m == "*" {
+							e.Top = true
+						} else {
+							e.Classes[resolveClass(u, m)] = true
+						}
+					}
+					return
+				}
+			}
+		}
 	}
 	// foreign function: may write through slice / pointer arguments
 	for _, a := range cc.Args {
